@@ -125,14 +125,14 @@ class Rate34Data(BitsInterface):
         if data_type in (Rate34DataTypes.Undefined, Rate34DataTypes.Unconfirmed):
             return Rate34Data(data=bits, packet_type=data_type)
         elif data_type == Rate34DataTypes.Confirmed:
-            return Rate34Data(
+            block: Rate34Data = Rate34Data(
                 dbsn=bits[0:7],
                 crc9=bits[7:16],
                 data=bits[16:144],
                 packet_type=data_type,
             )
         elif data_type == Rate34DataTypes.ConfirmedLastBlock:
-            return Rate34Data(
+            block: Rate34Data = Rate34Data(
                 dbsn=bits[0:7],
                 crc9=bits[7:16],
                 data=bits[16:112],
@@ -143,6 +143,10 @@ class Rate34Data(BitsInterface):
             return Rate34Data(
                 data=bits[0:112], crc32=bits[112:144], packet_type=data_type
             )
+
+        # crc9 value 0 is (re)generated by the constructor, received crc9 of confirmed block must be judged as received
+        block.crc9_ok = ba2int(bits[7:16][::-1]) == block.calculate_crc9()
+        return block
 
     def convert(self, new_type: Rate34DataTypes):
         return Rate34Data.from_bits_typed(bits=self.as_bits(), data_type=new_type)
